@@ -537,7 +537,7 @@ func runSession(s *sessScript, data []byte, cuts []int, gateOff int, expectBefor
 
 func sessionFamily(c *Case) {
 	r := c.R
-	if tooManyStalls() {
+	if tooManyStalls(c) {
 		c.Dist("session-skipped/after-repeated-stalls")
 		return
 	}
@@ -714,7 +714,7 @@ type xferRun struct {
 
 func transferFamily(c *Case) {
 	r := c.R
-	if tooManyStalls() {
+	if tooManyStalls(c) {
 		c.Dist("transfer-skipped/after-repeated-stalls")
 		return
 	}
@@ -924,7 +924,7 @@ func init() {
 			"bufio.Scanner is library code: modelled by Scan.scan (buffer accumulation, 64 KiB limit, empty-token rule) and compared with the real library on every run",
 		}
 		x.Add(&Family{Name: "scanner-partitions", Quick: 1500, Thor: 40000, Run: scannerFamily})
-		x.Add(&Family{Name: "session-segmentation", Quick: 320, Thor: 6000, Run: sessionFamily})
+		x.Add(&Family{Name: "session-segmentation", Quick: 320, Thor: 4000, Run: sessionFamily})
 		x.Add(&Family{Name: "transfer-segmentation", Quick: 48, Thor: 800, Run: transferFamily})
 	}
 }
